@@ -324,6 +324,76 @@ pub fn generated_projects() -> Vec<Project> {
     ]
 }
 
+/// Main -> Mid -> Leaf, Main does not import Leaf: every way Main can touch what Leaf declares
+/// (through Mid's API, by naming it, or by declaring something of the same name itself). Whatever
+/// the verdict is, both pipelines must agree on it (and on the output).
+pub fn indirect_dependency_projects() -> Vec<Project> {
+    let leaf = "package Leaf\n\nstruct P { x: int32, y: int32 }\ntrait Show { fn show(Self) -> string; }\nimpl Show for P { fn show(self: P) -> string { \"P\" + int32_to_string(self.x) } }\nimpl P { fn get(self: P) -> int32 { self.x + self.y } }\nfn mk(n: int32) -> P { P { x: n, y: n + 1 } }\n";
+    let mid = "package Mid\nimport Leaf\n\nfn corner(n: int32) -> Leaf::P { Leaf::mk(n) }\nfn x_of(p: Leaf::P) -> int32 { p.x }\nfn shown(p: Leaf::P) -> string { Leaf::Show::show(p) }\n";
+    let mut out = Vec::new();
+    for (which, main_body) in [
+        ("opaque-pass", "fn main() { let c = Mid::corner(3); string_println(int32_to_string(Mid::x_of(c)) + Mid::shown(c)) }"),
+        ("field-access", "fn main() { let c = Mid::corner(3); string_println(int32_to_string(c.x + c.y)) }"),
+        ("method-dot", "fn main() { let c = Mid::corner(3); string_println(int32_to_string(c.get())) }"),
+        ("inherent-path", "fn main() { let c = Mid::corner(3); string_println(int32_to_string(Leaf::P::get(c))) }"),
+        ("trait-path", "fn main() { let c = Mid::corner(3); string_println(Leaf::Show::show(c)) }"),
+        ("trait-bound", "fn describe[T: Leaf::Show](t: T) -> string { t.show() }\nfn main() { string_println(describe(Mid::corner(3))) }"),
+        ("type-annotation", "fn main() { let c: Leaf::P = Mid::corner(3); string_println(int32_to_string(Mid::x_of(c))) }"),
+        ("struct-literal", "fn main() { let c = Leaf::P { x: 1, y: 2 }; string_println(int32_to_string(Mid::x_of(c))) }"),
+        ("struct-pattern", "fn main() { let c = Mid::corner(3); let r = match c { Leaf::P { x: a, y: b } => a + b }; string_println(int32_to_string(r)) }"),
+        ("function-call", "fn main() { let c = Leaf::mk(3); string_println(int32_to_string(Mid::x_of(c))) }"),
+        ("local-struct-named-like-the-package", "struct Leaf { v: int32 }\nimpl Leaf { fn origin() -> Leaf { Leaf { v: 7 } } fn val(self: Leaf) -> int32 { self.v } }\nfn main() { let o = Leaf::origin(); string_println(int32_to_string(o.val() + Mid::x_of(Mid::corner(3)))) }"),
+        ("local-enum-named-like-the-package", "enum Leaf { Green, Dry(int32) }\nfn w(l: Leaf) -> int32 { match l { Leaf::Green => 1, Leaf::Dry(k) => k } }\nfn main() { string_println(int32_to_string(w(Leaf::Green) + w(Leaf::Dry(5)) + Mid::x_of(Mid::corner(3)))) }"),
+        ("local-items-named-like-its-items", "struct P { k: int32 }\ntrait Show { fn show(Self) -> string; }\nimpl Show for P { fn show(self: P) -> string { \"mine\" } }\nfn mk(n: int32) -> P { P { k: n } }\nfn main() { string_println(Show::show(mk(1)) + Mid::shown(Mid::corner(3))) }"),
+    ] {
+        out.push(Project {
+            name: format!("indirect-dependency-{}", which),
+            files: vec![("main.gom".into(), format!("package Main\nimport Mid\n\n{}\n", main_body)), ("Mid/lib.gom".into(), mid.into()), ("Leaf/lib.gom".into(), leaf.into())],
+            expected_stdout: None,
+        });
+    }
+    out
+}
+
+/// one spelling declared in two packages (variants, enums, structs, functions, traits and their
+/// methods, impls): the Go names of the two must differ
+pub fn same_name_projects() -> Vec<Project> {
+    vec![
+        p(
+            "same-variant-name-in-two-packages",
+            &[
+                ("main.gom", "package Main\nimport Lib\n\nenum Color { Red, Blue }\nfn code(c: Color) -> int32 { match c { Color::Red => 1, Color::Blue => 2 } }\nfn main() { string_println(int32_to_string(code(Color::Red) + code(Color::Blue)) + int32_to_string(Lib::rank(Lib::Light::Red) + Lib::rank(Lib::first()))) }\n"),
+                ("Lib/lib.gom", "package Lib\n\nenum Light { Red, Green }\nfn rank(l: Light) -> int32 { match l { Light::Red => 10, Light::Green => 20 } }\nfn first() -> Light { Light::Green }\n"),
+            ],
+            "330\n",
+        ),
+        p(
+            "same-variant-name-with-payload-in-two-packages",
+            &[
+                ("main.gom", "package Main\nimport Lib\n\nenum Mine { Box(int32), Nope }\nfn open(m: Mine) -> int32 { match m { Mine::Box(k) => k, Mine::Nope => 0 } }\nfn main() { string_println(int32_to_string(open(Mine::Box(4))) + Lib::open(Lib::Theirs::Box(\"s\"))) }\n"),
+                ("Lib/lib.gom", "package Lib\n\nenum Theirs { Box(string), Other }\nfn open(t: Theirs) -> string { match t { Theirs::Box(s) => s, Theirs::Other => \"-\" } }\n"),
+            ],
+            "4s\n",
+        ),
+        p(
+            "same-type-and-function-names-in-two-packages",
+            &[
+                ("main.gom", "package Main\nimport Lib\n\nstruct Item { k: int32 }\nenum Kind { A, B }\nfn mk(k: int32) -> Item { Item { k: k } }\nfn tag(x: Kind) -> int32 { match x { Kind::A => 1, Kind::B => 2 } }\nfn main() { let a = mk(1); let b = Lib::mk(\"z\"); string_println(int32_to_string(a.k + tag(Kind::B)) + b.k + Lib::tag(Lib::Kind::A)) }\n"),
+                ("Lib/lib.gom", "package Lib\n\nstruct Item { k: string }\nenum Kind { A, B }\nfn mk(k: string) -> Item { Item { k: k } }\nfn tag(x: Kind) -> string { match x { Kind::A => \"a\", Kind::B => \"b\" } }\n"),
+            ],
+            "3za\n",
+        ),
+        p(
+            "same-trait-and-method-names-in-two-packages",
+            &[
+                ("main.gom", "package Main\nimport Lib\n\ntrait Show { fn show(Self) -> string; }\nstruct S { k: int32 }\nimpl Show for S { fn show(self: S) -> string { \"main\" } }\nimpl Lib::Show for S { fn show(self: S) -> string { \"lib\" } }\nimpl S { fn get(self: S) -> int32 { self.k } }\nfn main() { let s = S { k: 1 }; let d: dyn Lib::Show = s; let e: dyn Show = s; string_println(Show::show(s) + Lib::Show::show(s) + Lib::Show::show(d) + Show::show(e) + Lib::via(s) + int32_to_string(s.get() + Lib::T::get(Lib::mk()))) }\n"),
+                ("Lib/lib.gom", "package Lib\n\ntrait Show { fn show(Self) -> string; }\nstruct T { k: int32 }\nimpl T { fn get(self: T) -> int32 { self.k * 10 } }\nfn mk() -> T { T { k: 2 } }\nfn via[U: Show](u: U) -> string { Show::show(u) }\n"),
+            ],
+            "mainliblibmainlib21\n",
+        ),
+    ]
+}
+
 /// ill-typed variants: one type error in a leaf / middle / root package of the chain project
 pub fn erroneous_projects() -> Vec<Project> {
     let base = &generated_projects()[0];
